@@ -88,6 +88,11 @@ var lcReasons = map[string][]string{
 	// Close(false) with packets still buffered (no poll pending / the writer still busy) and a client that goes on
 	// polling and reading: the buffer drains to it and the close the application asked for completes
 	"appCloseBuffered": {"forced close"},
+	// the application closes the session (Close(true)) from inside its listener of the 'packet' or 'data' event
+	// of a client message: whatever the library still had to emit for that packet comes after the close
+	// (on polling the data request that carries the message is still in flight: the server aborts it, and its
+	// connection ending may be reported like a dropped request, as for a close from outside: section 10)
+	"appCloseInListener": {"forced close", "transport error"},
 	// a write of the server fails (broken pipe / the peer stopped the receiving side of its stream) before its
 	// reader has noticed anything
 	"writeFail": {"transport error", "transport close"},
@@ -96,7 +101,7 @@ var lcReasons = map[string][]string{
 	"stall": {"ping timeout"},
 }
 
-var lcCauses = []string{"closePacket", "drop", "overlap", "wrongHeartbeat", "garbage", "silence", "appClose", "appCloseNow", "appCloseNoPoll", "appCloseNoPoll", "appCloseBuffered", "writeFail", "stall"}
+var lcCauses = []string{"closePacket", "drop", "overlap", "wrongHeartbeat", "garbage", "silence", "appClose", "appCloseNow", "appCloseNoPoll", "appCloseNoPoll", "appCloseBuffered", "appCloseInListener", "writeFail", "stall"}
 
 type lcSess struct {
 	idx               int
@@ -113,6 +118,9 @@ type lcSess struct {
 	noPoll            bool     // polling client that never polls again
 	answered          int
 	closeEvIdx        int // index in sr.Events of the close event, -1
+	// strictAfterClose: the close was issued on the goroutine that emits the session's events (from inside a
+	// listener): what that goroutine emits afterwards is after the close event, no "same instant" tolerance
+	strictAfterClose bool
 	eventsAtCloseStep int // number of events recorded by the end of the step in which the close was observed
 	cbAfterClose      int
 	wireAtClose       int
@@ -488,6 +496,16 @@ func (lw *lcWorld) causeFn(s *lcSess, cause string) func() {
 			}
 			s.sr.Sock.Close(false)
 		}
+	case "appCloseInListener":
+		ev := []string{"packet", "data"}[len(s.sr.Events)%2]
+		return func() {
+			lw.stats["close-inside-a-"+ev+"-listener"] = true
+			s.sr.Sock.Once(types.EventName(ev), func(...any) {
+				s.strictAfterClose = true
+				s.sr.Sock.Close(true)
+			})
+			s.sendPkt(msgT("makes the listener close the session"))
+		}
 	case "appCloseBuffered":
 		if s.pc != nil && s.pc.Poll != nil {
 			// use up the pending poll (done here, by the caller's goroutine)
@@ -597,6 +615,9 @@ func (lw *lcWorld) checkAll(where string) {
 			}
 			if sr.Sock.ReadyState() != "closed" {
 				lw.f03("%s: session #%d emitted close but its ready state is %q", where, i, sr.Sock.ReadyState())
+			}
+			if s.strictAfterClose && len(sr.Closes) == 1 && sr.Closes[0] == "forced close" && closeIdx >= 0 && len(sr.Events) > closeIdx+1 {
+				lw.f03("%s: session #%d closed from inside its own listener: event %v after the close event", where, i, sr.Events[closeIdx+1])
 			}
 			if s.eventsAtCloseStep == 0 {
 				// events of actions that ran concurrently with the close (same step, same instant) are not "afterwards"
@@ -891,6 +912,11 @@ func runLC(steps []lcStep) (*lcWorld, bubbleResult) {
 					break
 				}
 				if st.Cause == "overlap" || st.Cause == "appCloseNoPoll" || st.Cause2 == "appCloseNoPoll" {
+					break
+				}
+				if st.Cause == "appCloseInListener" || st.Cause2 == "appCloseInListener" {
+					// (needs a client message of its own: two client actions of one client at one instant are a
+					// matter of the client, not of the server)
 					break
 				}
 				f1 := lw.causeFn(s, st.Cause)
@@ -1319,7 +1345,7 @@ func TestC03Lifecycle(t *testing.T) {
 			}
 		})
 	}
-	req := []string{"close-timeout-before-the-heartbeat", "server-write-fails-before-its-reader-notices", "peer-stops-reading", "upgrade-packet-inside-the-close-listener", "closed-inside-the-connection-listener", "session-closed-inside-Send", "carrier.polling", "carrier.websocket", "carrier.webtransport", "two-causes-same-instant", ">=2-causes-on-one-session", "activity-after-close", "stayed-open", "server-close", "close-with-buffered-data-and-a-client-that-keeps-reading"}
+	req := []string{"close-timeout-before-the-heartbeat", "server-write-fails-before-its-reader-notices", "peer-stops-reading", "upgrade-packet-inside-the-close-listener", "closed-inside-the-connection-listener", "session-closed-inside-Send", "carrier.polling", "carrier.websocket", "carrier.webtransport", "two-causes-same-instant", ">=2-causes-on-one-session", "activity-after-close", "stayed-open", "server-close", "close-with-buffered-data-and-a-client-that-keeps-reading", "close-inside-a-packet-listener", "close-inside-a-data-listener"}
 	if !known[sigDoubleClose] {
 		req = append(req, "second-cause-inside-OnClose-window")
 	}
